@@ -16,7 +16,8 @@ EXPLANATION = (
     "tests the same continuation bit as decodeLength; F4 no path that leaves without dispatching modifies the carry; F5 "
     "the dispatch sits in a loop whose test re-reads the carry; F6 no stale length: every iteration either consumes a "
     "packet and resets the decoded length, or leaves the loop; F7 the dispatcher passes the whole slice unmodified to at "
-    "most one handler. Equality of observable traces over all chunkings is the lemma's conclusion, not observed.")
+    "most one handler. Equality of observable traces over all chunkings is the lemma's conclusion, not observed. "
+    " F3 also checks that the width scan advances one byte per iteration; F5 that the framer gives up on a length test against a constant only while fewer than 2 bytes are buffered (a lone two-byte packet must not wait for later traffic).")
 ASSUMPTIONS = ["decodeLength is a correct decoder of the remaining-length field (C01)"]
 
 
